@@ -151,7 +151,17 @@ func (c *codec) DiscardBody(header *Header, source io.Reader) (err error) {
 	count := int64(header.BodyLength)
 	switch s := source.(type) {
 	case io.Seeker:
-		_, err = s.Seek(count, io.SeekCurrent)
+		// seeking past the end of the source succeeds: make sure the whole body is there
+		var current, end int64
+		if current, err = s.Seek(0, io.SeekCurrent); err == nil {
+			if end, err = s.Seek(0, io.SeekEnd); err == nil {
+				if end-current < count {
+					err = io.ErrUnexpectedEOF
+				} else {
+					_, err = s.Seek(current+count, io.SeekStart)
+				}
+			}
+		}
 	default:
 		_, err = io.CopyN(ioutil.Discard, s, count)
 	}
